@@ -193,21 +193,28 @@ impl Check for C15 {
 			("MAInstance".to_string(), Params::Ma(kind as u8, pick(&mut r, lo, hi2)))
 		} else if kind == 15 {
 			let n = pick(&mut r, 1, hi) as usize;
-			let style = r.below(3);
-			(
-				"Conv".to_string(),
-				Params::Weights(
-					(0..n)
-						.map(|j| {
-							Fx(sut::vt(match style {
-								0 => 1.0 + j as f64,
-								1 => r.unit() + 0.05,
-								_ => if law == 2 { r.unit() } else { r.unit() * 2.0 - 0.5 },
-							}))
-						})
-						.collect(),
-				),
-			)
+			let style = r.below(4);
+			let mut w: Vec<Fx> = (0..n)
+				.map(|j| {
+					Fx(sut::vt(match style {
+						0 => 1.0 + j as f64,
+						1 | 3 => r.unit() + 0.05,
+						_ => if law == 2 { r.unit() } else { r.unit() * 2.0 - 0.5 },
+					}))
+				})
+				.collect();
+			if style == 3 && n >= 2 {
+				// lagged / sparse kernels: exact zero weights at the newest end, the oldest end and inside
+				let keep = r.usize_below(n);
+				let z_new = r.usize_below(n.min(4));
+				let z_old = r.usize_below(n.min(4));
+				for (j, x) in w.iter_mut().enumerate() {
+					if j != keep && (j >= n - z_new || j < z_old || r.chance(0.15)) {
+						*x = Fx(0.0);
+					}
+				}
+			}
+			("Conv".to_string(), Params::Weights(w))
 		} else {
 			("VWMA".to_string(), Params::Len(pick(&mut r, 1, hi)))
 		};
